@@ -223,8 +223,12 @@ def run(ctx, rec):
     while n < target and not rec.out_of_time():
         layout = L.LAYOUTS[n % len(L.LAYOUTS)]
         n += 1
-        lp = L.draw_lp(rng, layout=layout, kind=rng.choice(["any", "any", "optimal", "infeasible"]), risky=(n % 4 != 0), tiny_rows=(n % 5 == 1),
-                       deep_objective=(n % 40 == 7))
+        if n % 20 == 13:
+            # a deep objective whose variables occur nowhere else (no constraints): discovery rests on the objective walk alone
+            lp = L.draw_lp(rng, layout=layout, kind="any", deep_objective=True, max_rows=0)
+        else:
+            lp = L.draw_lp(rng, layout=layout, kind=rng.choice(["any", "any", "optimal", "infeasible"]), risky=(n % 4 != 0), tiny_rows=(n % 5 == 1),
+                           deep_objective=(n % 40 == 7))
         if lp["constraints"] and n % 3 == 0:
             # written in stages: the model is inspected after the first k constraints, the rest (element-wise relations arrive as
             # lists) is added afterwards; or everything is handed over as one list
